@@ -51,6 +51,23 @@ theorem useBuffers_skips (s : State) (n : Nat) :
     (useBuffers s n).1.skips = s.skips ∧ (useBuffers s n).1.canSkip = s.canSkip := by
   simp [useBuffers]
 
+theorem clientSeek_skips (s : State) (w : Whence) (off : Int) : (clientSeek s w off).2.skips = s.skips := by
+  unfold clientSeek
+  generalize seekTarget s w off = np
+  split
+  · rfl
+  · simp only []
+    split
+    · rfl
+    · split <;> rfl
+
+theorem seekSkip_skips (s : State) (n : Nat) : (seekSkip s n).2.skips = s.skips := by
+  unfold seekSkip
+  split
+  · simp only []
+    split <;> exact clientSeek_skips _ _ _
+  · rfl
+
 theorem advance_skips (s : State) (n : Nat) (h : SkipsOk s.skips) : SkipsOk (advance s n).2.skips := by
   unfold advance
   split
@@ -62,11 +79,13 @@ theorem advance_skips (s : State) (n : Nat) (h : SkipsOk s.skips) : SkipsOk (adv
     split
     · rw [hu.1]; exact h
     · have h2 : SkipsOk s2.skips := by rw [hu.1]; exact h
-      have h3 : SkipsOk (if s2.canSkip then skipLoop s2 (n - total) 0 s2.skips else ((0 : Int), s2)).2.skips := by
+      have h3 : SkipsOk (if s2.canSkip then (if s2.noSkipper then seekSkip s2 (n - total) else skipLoop s2 (n - total) 0 s2.skips) else ((0 : Int), s2)).2.skips := by
         split
-        · exact skipLoop_suffix _ _ _ _ h2
+        · split
+          · rw [seekSkip_skips]; exact h2
+          · exact skipLoop_suffix _ _ _ _ h2
         · exact h2
-      generalize (if s2.canSkip then skipLoop s2 (n - total) 0 s2.skips else ((0 : Int), s2)) = sk at *
+      generalize (if s2.canSkip then (if s2.noSkipper then seekSkip s2 (n - total) else skipLoop s2 (n - total) 0 s2.skips) else ((0 : Int), s2)) = sk at *
       obtain ⟨r, s3⟩ := sk
       simp only [] at h3 ⊢
       split
@@ -129,7 +148,7 @@ theorem ahead_refines (s : State) (min : Nat) (hi : Inv s) (hmin : min ≤ 2 ^ 6
     | stuck => exact absurd g4 id
 
 /-- **Refinement of `__archive_read_filter_consume`** for a well-behaved skip callback. -/
-theorem consume_refines (s : State) (n : Int) (hi : Inv s) (hsk : SkipsOk s.skips) :
+theorem consume_refines (s : State) (n : Int) (hi : Inv s) (hsk : SkipsOk s.skips) (hns : NoSeekSkip s) :
     Inv (consume s n).2 ∧ (consume s n).1 = (specConsume (absN s) n).1 ∧
     absN (consume s n).2 = (specConsume (absN s) n).2 := by
   unfold consume specConsume
@@ -147,7 +166,7 @@ theorem consume_refines (s : State) (n : Int) (hi : Inv s) (hsk : SkipsOk s.skip
         simp [hn, hi]
       · have hf' : s.fatal = false := by simpa using hf
         have hpos : 0 < n.toNat := by omega
-        obtain ⟨g1, g2, _, g4⟩ := advance_spec s n.toNat hi hf' hpos
+        obtain ⟨g1, g2, _, g4⟩ := advance_spec s n.toNat hi hf' hpos hns
         have hrem : (absN s).rem = remaining s := by simp [absN, hf']
         have hfat : (absN s).fatal = false := by simp [absN, hf']
         have hterm : (absN s).term = s.term := by simp [absN, hf']
